@@ -191,7 +191,26 @@ pub fn mutate_script(rng: &mut Rng, b: &[u8]) -> Vec<u8> {
             break;
         }
         let i = rng.below(ops.len());
-        match rng.below(9) {
+        match rng.below(10) {
+            9 => {
+                // other serialisations of the same public key: hybrid form (06/07 + x + y) of an
+                // uncompressed key, uncompressed form of a compressed key is not derivable here
+                let keys: Vec<usize> = ops.iter().enumerate().filter(|(_, o)| matches!(o, rs::Op::Push { data, .. } if data.len() == 65 && data[0] == 4)).map(|(k, _)| k).collect();
+                if let Some(k) = keys.first() {
+                    if let rs::Op::Push { data, .. } = &ops[*k] {
+                        let mut d = data.clone();
+                        d[0] = 6 | (d[64] & 1);
+                        ops[*k] = rs::Op::Push { data: d, minimal: true, opcode: 0 };
+                    }
+                } else if let rs::Op::Push { data, .. } = &ops[i] {
+                    // or a parity flip of a compressed key (another valid key: must not decode to the same object)
+                    if data.len() == 33 && (data[0] == 2 || data[0] == 3) {
+                        let mut d = data.clone();
+                        d[0] ^= 1;
+                        ops[i] = rs::Op::Push { data: d, minimal: true, opcode: 0 };
+                    }
+                }
+            }
             0 => {
                 ops.remove(i);
             }
